@@ -13,15 +13,18 @@ func runHistory(t *rapid.T, col *evid.Collector, f Focus, weights map[string]int
 	k := col.NewCase()
 	m := newMachine(t, k, f)
 	all := map[string]func(*rapid.T){
-		"extend":    m.opExtend,
-		"dup":       m.opDup,
-		"orphan":    m.opOrphan,
-		"late":      m.opLate,
-		"clean":     m.opClean,
-		"save":      m.opSave,
-		"reload":    m.opReload,
-		"twin":      m.opTwin,
-		"subscribe": m.opSubscribe,
+		"extend":         m.opExtend,
+		"dup":            m.opDup,
+		"orphan":         m.opOrphan,
+		"late":           m.opLate,
+		"clean":          m.opClean,
+		"save":           m.opSave,
+		"reload":         m.opReload,
+		"twin":           m.opTwin,
+		"subscribe":      m.opSubscribe,
+		"mark":           m.opMark,
+		"unmark":         m.opUnmark,
+		"resubmitMarked": m.opResubmitMarked,
 	}
 	// rapid's Repeat picks actions uniformly; weights are realised by aliasing an action under
 	// several names.
